@@ -356,14 +356,43 @@ class Body:
                 out.append((i, r[2], s))
         return out
 
+    def kconst(self, op):
+        """constant dict behind an operand, looking through promoted constants"""
+        if not op or op[0] != "k":
+            return None
+        k = op[1]
+        if isinstance(k, dict) and "promo" in k:
+            ps = self.d.get("promos", [])
+            if k["promo"] < len(ps):
+                cs = ps[k["promo"]]
+                pick = [c for c in cs if "s" in c or "i" in c]
+                if len(pick) == 1:
+                    return pick[0]
+                if cs:
+                    return {"multi": cs}
+        return k
+
+    def kstr(self, op):
+        k = self.kconst(op)
+        return k.get("s") if k else None
+
+    def kint(self, op):
+        k = self.kconst(op)
+        return int(k["i"]) if k and "i" in k else None
+
     def const_strs(self):
         out = []
 
         def visit(o, bb, line):
             if isinstance(o, list):
                 if len(o) == 2 and o[0] == "k" and isinstance(o[1], dict):
-                    if "s" in o[1]:
-                        out.append((o[1]["s"], bb, line))
+                    k = self.kconst(o)
+                    if k and "s" in k:
+                        out.append((k["s"], bb, line))
+                    elif k and "multi" in k:
+                        for c in k["multi"]:
+                            if "s" in c:
+                                out.append((c["s"], bb, line))
                     return
                 for x in o:
                     visit(x, bb, line)
@@ -807,3 +836,177 @@ def fmt_sites(body):
                 argkinds.append((kind, src))
         sites.append({"call": c, "pieces": decode_fmt_template(tpl) if tpl else None, "args": argkinds})
     return sites
+
+
+# ---------------------------------------------------------------- provenance
+
+TRANSPARENT = re.compile(
+    r"(::deref$|::deref_mut$|::as_ref$|::as_mut$|::as_deref$|::borrow$|::clone$|::into$|::from$|::branch$|"
+    r"::from_residual$|::unwrap$|::expect$|::unwrap_or_default$|::into_iter$|::iter$|::next$|::as_str$|"
+    r"::to_string$|::to_owned$|::into_owned$|::as_slice$|::pin$|::new_unchecked$|::as_mut_ptr$|"
+    r"::into_future$|::must_use$|::map_err$|::ok_or_else$|::ok_or$|::copied$|::cloned$|::into_inner$|"
+    r"::get_mut$|::boxed$|::unwrap_or$|::into_server_error$)"
+)
+
+
+def trace(body, start, transparent=TRANSPARENT, limit=400, through_calls=True):
+    """Flow-insensitive backward slice from a local (int), place (list) or operand.
+    Returns (origins, passed) where origins is a list of tuples:
+      ("param", n) | ("upvar", name) | ("call", Call) | ("const", kdict) | ("agg", rvalue) |
+      ("field", place) (a read of a field path rooted at a param/upvar)
+    and passed is the list of Calls the value flowed through (transparent ones included)."""
+    if isinstance(start, int):
+        work = [start]
+    elif start and start[0] in ("c", "m"):
+        work = [start[1][0]]
+    elif start and start[0] == "k":
+        return [("const", body.kconst(start))], []
+    else:
+        work = [start[0]]
+    seen = set()
+    origins = []
+    passed = []
+    fields = []
+
+    def add_place(p):
+        # closure upvar?
+        if len(p) > 1 and isinstance(p[1], str) and p[0] == 1 and p[1].startswith(".^"):
+            origins.append(("upvar", p[1][2:]))
+        fs = [x for x in p[1:] if isinstance(x, str) and x.startswith(".")]
+        if fs:
+            origins.append(("field", p))
+        work.append(p[0])
+
+    def add_op(o):
+        if o[0] in ("c", "m"):
+            add_place(o[1])
+        else:
+            origins.append(("const", body.kconst(o)))
+
+    while work and len(seen) < limit:
+        l = work.pop()
+        if l in seen:
+            continue
+        seen.add(l)
+        defs = body.defs_of_local(l)
+        if 1 <= l <= body.argc:
+            origins.append(("param", l))
+        for bb, s in defs:
+            r = s[1]
+            k = r[0]
+            if k == "use":
+                add_op(r[1])
+            elif k == "ref":
+                add_place(r[1])
+            elif k == "cast":
+                add_op(r[2])
+            elif k == "agg":
+                origins.append(("agg", r))
+                for o in r[5]:
+                    add_op(o)
+            elif k in ("bin",):
+                add_op(r[2])
+                add_op(r[3])
+            elif k == "un":
+                add_op(r[2])
+            elif k == "disc":
+                add_place(r[1])
+            elif k == "callret":
+                c = r[1]
+                passed.append(c)
+                cal = c.callee or ""
+                if through_calls and transparent is not None and (transparent.search(cal) or transparent.search(c.declared or "")):
+                    for a in c.args[:1]:
+                        add_op(a)
+                else:
+                    origins.append(("call", c))
+    return origins, passed
+
+
+def flows_through(body, start, callee_pat):
+    """does the value (backward slice) pass through a call matching callee_pat?"""
+    rx = re.compile(callee_pat)
+    # follow every call's arguments (not only transparent ones) but stop at matches
+    seen = set()
+    work = []
+    if isinstance(start, int):
+        work = [start]
+    elif start and start[0] in ("c", "m"):
+        work = [start[1][0]]
+    else:
+        return None
+    while work:
+        l = work.pop()
+        if l in seen:
+            continue
+        seen.add(l)
+        for bb, s in body.defs_of_local(l):
+            r = s[1]
+            k = r[0]
+            ops = []
+            if k == "use":
+                ops = [r[1]]
+            elif k == "ref":
+                work.append(r[1][0])
+            elif k == "cast":
+                ops = [r[2]]
+            elif k == "agg":
+                ops = r[5]
+            elif k == "callret":
+                c = r[1]
+                if c.callee and (rx.search(c.callee) or rx.search(c.declared)):
+                    return c
+                ops = c.args
+            for o in ops:
+                if o[0] in ("c", "m"):
+                    work.append(o[1][0])
+    return None
+
+
+def _ops_of_rvalue(r):
+    k = r[0]
+    if k == "use":
+        return [r[1]]
+    if k == "ref":
+        return [["c", r[1]]]
+    if k == "cast":
+        return [r[2]]
+    if k == "bin":
+        return [r[2], r[3]]
+    if k == "un":
+        return [r[2]]
+    if k == "agg":
+        return list(r[5])
+    if k == "disc":
+        return [["c", r[1]]]
+    return []
+
+
+def forward(body, start_local, through_calls=True):
+    """flow-insensitive forward taint from a local: returns (tainted locals, calls that receive a
+    tainted argument [(Call, arg index)], returned: bool (flows into _0))"""
+    tainted = {start_local}
+    recv = []
+    seen_calls = set()
+    changed = True
+    while changed:
+        changed = False
+        for bb, s in body.all_stmts():
+            dest = s[0][0]
+            r = s[1]
+            if r[0] == "callret":
+                continue
+            for o in _ops_of_rvalue(r):
+                if o[0] in ("c", "m") and o[1][0] in tainted and dest not in tainted:
+                    tainted.add(dest)
+                    changed = True
+        for c in body.calls():
+            for i, a in enumerate(c.args):
+                if a[0] in ("c", "m") and a[1][0] in tainted:
+                    if (id(c), i) not in seen_calls:
+                        seen_calls.add((id(c), i))
+                        recv.append((c, i))
+                    if through_calls and c.dest[0] not in tainted:
+                        tainted.add(c.dest[0])
+                        changed = True
+    return tainted, recv, (0 in tainted)
